@@ -496,6 +496,40 @@ Fixpoint step (n : nat) (d : dir) (it : iter) {struct n} : option R :=
     end
   end.
 
+(* ---------- KotoIterator::make_copy, struct by struct (every field carried over, inner iterators copied) ---------- *)
+Fixpoint copy (it : iter) : iter :=
+  match it with
+  | SList d i e => SList d i e
+  | SRange s e incl => SRange s e incl
+  | SStr s => SStr s
+  | SMap d i e => SMap d i e
+  | SBytes d i e => SBytes d i e
+  | SGen id items fin => SGen id items fin          (* clone_generator_vm *)
+  | SOnce v => SOnce v
+  | SRepeat v => SRepeat v
+  | SRepeatN r v => SRepeatN r v
+  | Chain a b => Chain (match a with Some x => Some (copy x) | None => None end) (copy b)
+  | Chunks i k => Chunks (copy i) k
+  | Cycle i cache idx => Cycle (copy i) cache idx
+  | Each i f => Each (copy i) f
+  | Enumerate i idx => Enumerate (copy i) idx
+  | Flatten i nested => Flatten (copy i) (match nested with Some x => Some (copy x) | None => None end)
+  | Intersperse i pk sn sep => Intersperse (copy i) pk sn sep
+  | IntersperseWith i pk sn f => IntersperseWith (copy i) pk sn f
+  | Keep i p => Keep (copy i) p
+  | Reversed i => Reversed (copy i)
+  | Skip i r => Skip (copy i) r
+  | Step i k => Step (copy i) k
+  | Take i r => Take (copy i) r
+  | TakeWhile i p fin => TakeWhile (copy i) p fin
+  | Windows i cache k => Windows (copy i) cache k
+  | Zip a b => Zip (copy a) (copy b)
+  (* NOTE: the Rust Peekable derives KotoCopy from Clone, which clones the KIterator HANDLE (the copy shares
+     the inner iterator with the original); this owned-tree model cannot express sharing and copies it *)
+  | Peekable i pf pb => Peekable (copy i) pf pb
+  | SFail id items k fin => SFail id items k fin
+  end.
+
 (* ---------- constructors: core_lib/iterator.rs argument checks + the adaptors' `new` ---------- *)
 Definition mk_list (l : list value) : iter := SList l 0 (nlen l).
 Definition mk_map (l : list (value * value)) : iter := SMap l 0 (nlen l).
@@ -581,6 +615,9 @@ Section Fold.
     end.
 End Fold.
 
+(* iterator variables it0, it1, ...: `r = it<s>.next()` / `it<dst> = copy it<src>` *)
+Inductive cop := OpNext (s : nat) | OpCopy (src dst : nat).
+
 Inductive consumer :=
 | CToList | CToTuple | CCount | CSum | CProduct | CMin | CMax | CMinMax | CLast | CConsume
 | CAny (p : cb) | CAll (p : cb) | CFind (p : cb) | CPosition (p : cb)
@@ -588,7 +625,8 @@ Inductive consumer :=
 | CNexts (dirs : list dir)     (* a sequence of iterator.next / next_back calls on the same iterator *)
 (* script-level consumers, executed by the VM's IterNext* / IterUnpack instructions *)
 | CFor (quiet : bool)          (* `for x in it` (body: emit x) / `for _ in it` (body: emit nothing of x); returns the count *)
-| CUnpack (mask : list bool).  (* `a, _, c = it`: one pull per target; true = named target (emitted afterwards) *)
+| CUnpack (mask : list bool)   (* `a, _, c = it`: one pull per target; true = named target (emitted afterwards) *)
+| CScript (ops : list cop).    (* a straight-line script of next() calls and `copy` over iterator variables *)
 
 Definition int_op (op : Z -> Z -> Z) (a b : value) : res :=
   match a, b with
@@ -755,6 +793,40 @@ Fixpoint cunpack (n : nat) (mask : list bool) (it : iter) (outs : trace) : optio
     end
   end.
 
+Fixpoint set_nth {A} (n : nat) (x : A) (l : list A) : list A :=
+  match l, n with
+  | [], _ => []
+  | _ :: r, O => x :: r
+  | y :: r, S n' => y :: set_nth n' x r
+  end.
+
+(* each next() is reported as (slot, value) or (slot,) for None *)
+Fixpoint cscript (n : nat) (ops : list cop) (slots : list iter) : option (trace * cres * list iter) :=
+  match ops with
+  | [] => Some ([], CVal VNull, slots)
+  | OpNext s :: r =>
+    match nth_error slots s with
+    | None => Some ([], CErr E_OP, slots)
+    | Some it =>
+      '(t, o, it') <- step n Fwd it ;;
+      let slots' := set_nth s it' slots in
+      match option_map collect o with
+      | Some (RErr e) => Some (t, CErr e, slots')
+      | Some (ROk v) =>
+        '(t2, r2, s2) <- cscript n r slots' ;;
+        Some (t ++ [EvOut (ROk (VTup [VInt (Z.of_nat s); v]))] ++ t2, r2, s2)
+      | None =>
+        '(t2, r2, s2) <- cscript n r slots' ;;
+        Some (t ++ [EvOut (ROk (VTup [VInt (Z.of_nat s)]))] ++ t2, r2, s2)
+      end
+    end
+  | OpCopy a b :: r =>
+    match nth_error slots a with
+    | None => Some ([], CErr E_OP, slots)
+    | Some it => cscript n r (set_nth b (copy it) slots)
+    end
+  end.
+
 Definition fin {A} (g : A -> value) (s : acc A) : cres :=
   match s with inl a => CVal (g a) | inr e => CErr e end.
 
@@ -781,4 +853,5 @@ Definition consume (c : consumer) (n : nat) (it : iter) : option (trace * cres *
   | CNexts dirs => cnexts n dirs it
   | CFor quiet => '(t, s, it') <- cfold _ (f_for quiet) n it (inl 0) ;; Some (t, fin (fun c => VInt (Z.of_N c)) s, it')
   | CUnpack mask => cunpack n mask it []
+  | CScript ops => '(t, r, slots) <- cscript n ops [it; it; it] ;; Some (t, r, match slots with x :: _ => x | [] => it end)
   end.
